@@ -23,7 +23,8 @@ from harness.cones import EXACT_CONES, real_order
 
 TITLE = "cone order relation, preorder laws and bundled cone constructors vs Lean model"
 RULE = ("cases: dom = (cone with integer/dyadic rows, dyadic-lattice pair a,b) with shapes random / equal / "
-        "facet-tie / inside / outside / mixed-facets; batch = 2-D and broadcast calls, list input; laws = "
+        "facet-tie / inside / outside / mixed-facets; batch = 2-D and broadcast calls, list input, plus exhaustive "
+        "small lattices of difference vectors per cone in chunks of 64; laws = "
         "(a,b,c,t,s) chains built from cone elements; ctor2d = theta in 1..179 (int and float, both branches, "
         "exactly 90) + random theta, with probe directions; ctor3d = the three kinds; ice = K in 3..64 x theta; "
         "eq = OrderingCone.__eq__ pairs; comp = ComponentwiseOrder(dim 2..5). non-trivial: dom/batch = not all "
@@ -269,6 +270,21 @@ def gen(ctx):
         for th in dict.fromkeys(ths):
             if mine():
                 yield {"kind": "ice", "K": K, "theta": th, "bs": [rng.uniform(0, 2 * math.pi) for _ in range(6)]}
+    # ---- exhaustive small lattices: every difference vector with coordinates in a small range (all ties included)
+    import itertools
+    for cname in names:
+        W, _ = ALL_CONES[cname]
+        m = len(W[0])
+        if thorough:
+            r, den = {1: 16, 2: 6, 3: 3, 4: 2, 5: 1}[m], (2 if m <= 3 else 1)
+        else:
+            r, den = {1: 4, 2: 3, 3: 1, 4: 1, 5: 1}[m], 1
+        pts = [[t / den for t in p] for p in itertools.product(range(-r, r + 1), repeat=m)]
+        for i in range(0, len(pts), 64):
+            if mine():
+                chunk = pts[i:i + 64]
+                yield {"kind": "batch", "cone": cname, "W": W, "A": chunk, "B": [[0.0] * m for _ in chunk],
+                       "single": [0.0] * m, "shape": "lattice"}
     # ---- OrderingCone.__eq__
     for _ in range(ctx.n(40, 1500)):
         cname = rng.choice(names)
@@ -357,7 +373,7 @@ def _run_batch(ctx, case):
     s = np.array(case["single"], dtype=float)
     n = len(A)
     ws = core.qmat(W)
-    ctx.count("batch_n_%d" % n)
+    ctx.count("batch_n_%d" % n if case.get("shape") != "lattice" else "batch_lattice_chunks")
     try:
         checks = []
         exp = core.parse_bools(_ask(ctx, "domB", ws, core.qmat(A), core.qmat(B)))
@@ -671,6 +687,10 @@ def _run_ice(ctx, case):
     if impl != expd:
         ctx.violation("ice-inside", "is_inside on probe points disagrees with the exact facet inequalities", case,
                       detail={"impl": impl, "expected": expd})
+    # observation (not part of C12): the axis is (1/2, 1/2, sqrt2/2), 9.74 deg off the diagonal, so narrow
+    # ice-cream cones do not contain (1,1,1)
+    if not all(v >= 0 for v in _facet_vals(W.tolist(), [1.0, 1.0, 1.0])):
+        ctx.count("ice_diagonal_not_inside_info")
     ctx.case_done(case, True, canon=["ice", K, repr(th)])
 
 
